@@ -5,7 +5,9 @@
      st_annot / st_render / st_pep : a written peptide (flanks, residues, modifications, lower-case marks),
                                      its text, its bare residue sequence (Proofs/StripP.v)
      pk_picked P dm order rows     : picked_protein; P = the Proteins container (data), dm = what match_decoy
-                                     returned (target-only FASTA), order = row labels as left by DataFrame.sample
+                                     returned (target-only FASTA), order = row labels as left by DataFrame.sample;
+                                     a row's label is its position in the table (the code relabels its copy 0..n-1),
+                                     so no statement below depends on the caller's row labels
      pk_mapped P dm rows i r g     : row i of the table is r and its stripped sequence is a unique peptide of
                                      protein group g (through peptide_map, or the decoy map for a target-only FASTA)
      pk_pair_key P g               : protein_map.get(x, x) of the first member of g — the identity of the pair
@@ -196,6 +198,37 @@ Example C15_ex_target_only :
   = Ok [ {| pk_group := [100;101;99;111;121;95;65;44;32;100;101;99;111;121;95;66]; pk_best := [75;65];
             pk_stripped := [75;65]; pk_escore := 4; pk_etarget := false |} ].
 Proof. vm_compute. reflexivity. Qed.
+
+(* the table of repo_fixes/F30-repro-repeated-row-labels.py: two per-file tables of three rows, concatenated (the caller's
+   row labels are 0,1,2,0,1,2 — they do not reach the model: rows are numbered by position, as the code does since
+   /repo d0dad84).  Database: P0 = AAAAK CCCCK DDDDK, P1 = EEEEK FFFFK and their decoys; scores in quarters.
+   Exactly one entry per pair, each the best peptide of its pair, for this and any other complete sample order *)
+Definition ex_P3 : pk_proteins :=
+  {| pk_pepmap := [([65;65;65;65;75], [80;48]);
+                  ([67;67;67;67;75], [80;48]);
+                  ([68;68;68;68;75], [80;48]);
+                  ([69;69;69;69;75], [80;49]);
+                  ([70;70;70;70;75], [80;49]);
+                  ([71;71;71;71;75], [100;101;99;111;121;95;80;48]);
+                  ([72;72;72;72;75], [100;101;99;111;121;95;80;48]);
+                  ([73;73;73;73;75], [100;101;99;111;121;95;80;48]);
+                  ([76;76;76;76;75], [100;101;99;111;121;95;80;49]);
+                  ([77;77;77;77;75], [100;101;99;111;121;95;80;49])];
+     pk_shared := []; pk_protmap := [([80;48], [100;101;99;111;121;95;80;48]); ([80;49], [100;101;99;111;121;95;80;49])];
+     pk_has_decoys := true; pk_prefix := [100;101;99;111;121;95] |}.
+Definition ex_rows3 : list pk_row :=
+  [ {| pk_target := true; pk_pep := [75;46;65;65;65;65;75;46;67]; pk_score := 4 |};
+    {| pk_target := true; pk_pep := [67;67;91;43;49;93;67;67;75]; pk_score := 8 |};
+    {| pk_target := true; pk_pep := [69;69;69;69;75]; pk_score := 12 |};
+    {| pk_target := false; pk_pep := [71;71;71;71;75]; pk_score := 10 |};
+    {| pk_target := false; pk_pep := [76;76;76;76;75]; pk_score := 2 |};
+    {| pk_target := true; pk_pep := [70;70;70;70;75]; pk_score := 1 |} ].
+Example C15_ex_concatenated_table :
+  pk_picked ex_P3 [] [4;1;5;0;3;2]%nat ex_rows3
+  = Ok [ {| pk_group := [100;101;99;111;121;95;80;48]; pk_best := [71;71;71;71;75]; pk_stripped := [71;71;71;71;75]; pk_escore := 10; pk_etarget := false |};
+         {| pk_group := [80;49]; pk_best := [69;69;69;69;75]; pk_stripped := [69;69;69;69;75]; pk_escore := 12; pk_etarget := true |} ] /\
+  pk_picked ex_P3 [] [0;1;2;3;4;5]%nat ex_rows3 = pk_picked ex_P3 [] [4;1;5;0;3;2]%nat ex_rows3.
+Proof. vm_compute. split; reflexivity. Qed.
 
 (* the sanity errors and the empty table *)
 Example C15_ex_errors :
